@@ -78,6 +78,12 @@ def Ext(name):
 
 BYTEARRAY = List(INT)
 
+
+def BV(w=64):
+    """machine-width view of a non-negative Python int (proofs carry no-overflow side obligations)"""
+    return Ty("bv", name=str(w))
+
+
 _opaque_sorts = {}
 SeqInt = z3.SeqSort(z3.IntSort())
 
@@ -100,6 +106,8 @@ def sorts(ty):
         return [z3.StringSort()]
     if k == "bytes":
         return [SeqInt]
+    if k == "bv":
+        return [z3.BitVecSort(int(ty.name))]
     if k in ("ref", "list", "dict", "ext"):
         return [z3.IntSort()]
     if k == "opaque":
@@ -290,6 +298,8 @@ def zint(v):
     if isinstance(v, int):
         return z3.IntVal(v)
     if isinstance(v, Sym):
+        if v.k == "bv":
+            return z3.BV2Int(v.t, False)
         if v.k == "int":
             return v.t
         if v.k == "bool":
@@ -345,7 +355,7 @@ def zbytes(v):
 
 def is_num(v):
     k = kind_of(v)
-    return k in ("int", "real", "bool")
+    return k in ("int", "real", "bool", "bv")
 
 
 def num_kind(a, b):
@@ -376,6 +386,13 @@ def pack(ty, v):
         return [zstr(v)]
     if k == "bytes":
         return [zbytes(v)]
+    if k == "bv":
+        w = int(ty.name)
+        if isinstance(v, Sym) and v.k == "bv":
+            return [v.t]
+        if isinstance(v, int):
+            return [z3.BitVecVal(v, w)]
+        return [z3.Int2BV(zint(v), w)]
     if k in ("ref", "list", "dict", "ext"):
         if v is None:
             return [z3.IntVal(0)]
@@ -432,6 +449,8 @@ def unpack(ty, terms, assume=None):
         return Sym(terms[0], "str")
     if k == "bytes":
         return Sym(terms[0], "bytes")
+    if k == "bv":
+        return Sym(terms[0], "bv")
     if k == "opaque":
         return Sym(terms[0], ("opaque", ty.name))
     if k in ("ref", "list", "dict", "ext"):
@@ -475,6 +494,8 @@ def type_of_value(v):
     if isinstance(v, Sym):
         if isinstance(v.k, tuple):
             return Opaque(v.k[1])
+        if v.k == "bv":
+            return BV(v.t.size())
         return {"int": INT, "real": REAL, "bool": BOOL, "str": STR, "bytes": BYTES}[v.k]
     if isinstance(v, RefV):
         return Ty("ref", name=v.cls, nullable=not v.nn)
